@@ -360,6 +360,24 @@ class _Body:
         row = rng.choice(rows)
         args = [self.new(0.5) if (rng.random() < 0.6 or _is_open(row[j])) else row[j] for j in range(ar)]
         self.emit(_call(name, *args))
+    def db_step(self):
+        """the goal term (or a structure around it) goes through asserta/assertz/retract/retractall and is read back"""
+        rng = self.rng
+        key = rng.choice(list(self.goalvars))
+        name, ar, k, g = self.goalvars[key]
+        r = rng.random()
+        self.features.add('database')
+        if r < 0.3:
+            self.emit(_call(rng.choice(['assertz', 'asserta']), g))
+            if rng.random() < 0.5:
+                self.emit(_call(rng.choice(['retract', 'retractall']), g))
+        elif r < 0.75:
+            x = V(rng.choice(self.old)) if self.old and rng.random() < 0.7 else A('k')
+            self.emit(_call(rng.choice(['assertz', 'asserta']), F('kept', g, x)), _call('kept', self.new(0.6), self.new(0.3)))
+            if rng.random() < 0.4:
+                self.emit(_call('retract', F('kept', g, self.new(0.2))))
+        else:
+            self.emit(_call('assertz', F('kept', F('w', g), ['list', [g]])), _call('kept', F('w', self.new(0.6)), self.new(0.4)))
     def neq(self):
         x = V(self.rng.choice(self.old)) if self.old else A('a')
         self.emit(_call('\\=', F('m', x), F('n', x)))
@@ -386,6 +404,7 @@ def gen_random(rng):
     qargs = [V('Q%d' % i) for i in range(nh)]
     nq = [nh]
     param = rng.random() < 0.2
+    db = rng.random() < 0.2
     for ci in range(rng.choice([1, 1, 1, 2])):
         b = _Body(rng, tabs, nh)
         if param:
@@ -408,6 +427,8 @@ def gen_random(rng):
                 b.bind_goal()
                 if rng.random() < 0.7:
                     b.call_goal(list(b.goalvars)[-1])
+            elif db and r < 0.4:
+                b.db_step()
             elif r < 0.55:
                 b.call_goal()
             elif r < 0.68:
@@ -420,6 +441,8 @@ def gen_random(rng):
                 b.neq()
         while b.pending and rng.random() < 0.6:
             b.eq_inner()
+        if not b.goals:
+            b.call_goal()
         mains.append(['t', [V(h) for h in b.heads], b.body()])
         features |= b.features
     queries = [['t', list(qargs)]]
@@ -428,7 +451,10 @@ def gen_random(rng):
         q2 = list(qargs)
         q2[nh - 1] = rng.choice(KEYS + [A('v0_0'), ['num', '1']])
         queries.append(['t', q2])
-    return _finish(tabs, mains, queries, features)
+    c = _finish(tabs, mains, queries, features)
+    if 'database' in features:
+        c['nomodel'] = True      # the model of whole programs (Sem/Machine.v) has no database builtins: oracles only
+    return c
 
 PATH_TABLE = ('d0', 3, [[A('a'), F('f', A('b')), A('one')], [A('a'), F('f', A('b')), ['list', [A('two')]]],
                         [A('a'), A('c'), ['num', '3']], [A('b'), F('f', A('b')), A('four')]])
@@ -658,6 +684,11 @@ def impl(case, E, pyjson, py_spec):
 IMPORTS = ['Lang.Ast', 'Lang.Front', 'Sem.Machine', 'Sem.RunSem', 'Engine.RunAnswers']
 
 def model_expr(case):
+    if case.get('nomodel'):
+        return None
+    return _model_expr(case)
+
+def _model_expr(case):
     """the model is given the same source TEXT as the implementation (its own front end reads it); answers = the deep
     dereference of every query variable at every answer (Sem/Machine.v query, proved equal to the clause semantics)"""
     from lib.pyrepr_check import cps, g_cps
@@ -679,6 +710,18 @@ def oracle(case, io):
                 return '[%s driver, query %d] %s' % (driver, qi, iq['problems'][0])
             if iq['leftover']:
                 return '[%s driver, query %d] query variables still bound after the enumeration ended' % (driver, qi)
+    if case.get('nomodel'):
+        # no model for this program: the two drivers must agree with each other, and the sharing check is reported here
+        a, b = io['drivers'].get('compiled', []), io['drivers'].get('api', [])
+        for qi, (x, y) in enumerate(zip(a, b)):
+            if x['end'] != 'done' or y['end'] != 'done' or x.get('findall_inner') or y.get('findall_inner'):
+                continue
+            if x['count'] != y['count'] or x['answers'] != y['answers']:
+                return 'query %d: the compiled clause and the same goals driven through the API give different answers (%d / %d)' % (qi, x['count'], y['count'])
+        for driver, qs in io['drivers'].items():
+            for qi, iq in enumerate(qs):
+                if iq.get('sharing'):
+                    return '[%s driver, query %d] %s' % (driver, qi, iq['sharing'][0])
     return None
 
 def compare(case, io, mo):
